@@ -19,6 +19,7 @@ ENCODES = ["pycel.lib.engineering:_base2dec", "pycel.lib.engineering:_dec2base",
 BOUNDS = ["integers: the full ranges -512..511, -2^29..2^29-1, -2^39..2^39-1 plus 3 beyond each end, as one symbolic integer",
           "places 0..12 symbolic; digit strings as produced by the DEC2x functions (incl. zero padding), re-read character by character",
           "arbitrary input text: ASCII, length 0..11, every character a solver choice (illegal characters, signs, prefixes, underscores, blanks)",
+          "a number as argument of x2DEC: -3..99999 (OCT2DEC: ..9999, five decimal digits re-read in base 8 leave z3 without an answer)",
           "bool / None / error-code arguments: enumerated concretely"]
 ASSUMPTIONS = ["model of CPython's int(text, base) grammar (validated against CPython on all 354 964 strings of length <= 4 over a 17-character "
                "critical alphabet, bases 2/8/16/10; 19 characters, length <= 3, in the quick tier)", "Int <-> 64-bit vector conversion for & | ^ (operands asserted below 2^62)"]
@@ -165,7 +166,7 @@ def kb_after_bool(E, base):
 def kb_number_arg(E, base):
     """x2DEC given a number: its decimal rendering is read in the base (digits beyond the base or negative -> #NUM!)"""
     n = E.int("n")
-    E.assume((n >= -3) & (n <= 99999))
+    E.assume((n >= -3) & (n <= (9999 if base == 8 else 99999)))
     with _patch():
         r = X2D[base](n)
         if n < 0:
